@@ -86,6 +86,46 @@ def run(tier, seed, replay=None):
             for why, what in monitor_hits[before:]:
                 rep.fail("illtyped_intermediate:" + ops[0], dict(family=fam, expr=repr(e)),
                          why + " in " + what)
+        # ---- API sweep (oracle only): operations not in the modelled op language
+        sweep = 0
+        for k in range(60 if tier == "quick" else 600):
+            fam = "rigid" if k % 2 else "monoidal"
+            r = random.Random(rng.getrandbits(64))
+            eg = ExprGen(r, rigid=(fam == "rigid"))
+            e = eg.g.diagram(depth=r.choice([1, 2, 3, 4, 5]))[0]
+            d = fams[fam].run(e)
+            calls = [("foliation", lambda: d.foliation()),
+                     ("foliation.flatten", lambda: d.foliation().flatten()),
+                     ("foliate", lambda: [x for x in d.foliate() if hasattr(x, "boxes")][-1:] or [d]),
+                     ("permute", lambda: d.permute(*r.sample(range(len(d.cod)), len(d.cod)))),
+                     ("depth-slices", lambda: list(d.foliate(yield_slices=True))[-1])]
+            if fam == "rigid":
+                calls += [("transpose_l", lambda: d.transpose(left=True)),
+                          ("transpose_r", lambda: d.transpose(left=False)),
+                          ("normal_form", lambda: d.normal_form()),
+                          ("curry", lambda: type(d).curry(d, n_wires=min(1, len(d.dom)) or 1,
+                                                          left=r.random() < 0.5) if len(d.dom) else d)]
+            for name, call in calls:
+                before = len(monitor_hits)
+                try:
+                    out = call()
+                except (NotImplementedError,) :
+                    rep.count("sweep_refused:" + name)
+                    continue
+                except Exception as exc:
+                    rep.count("sweep_error:%s:%s" % (name, err_class(exc)))
+                    continue
+                sweep += 1
+                rep.count("sweep:" + name)
+                outs = out if isinstance(out, list) else [out]
+                for o in outs:
+                    why = wf_failure(o) if hasattr(o, "layers") else None
+                    if why:
+                        rep.fail("illtyped_result:" + name, dict(family=fam, expr=repr(e)), why)
+                for why, what in monitor_hits[before:]:
+                    rep.fail("illtyped_intermediate:" + name, dict(family=fam, expr=repr(e)),
+                             why + " in " + what)
+        rep.extra["api_sweep_calls"] = sweep
     finally:
         uninstall()
         drv.close()
